@@ -471,3 +471,37 @@ func requestFrameField(p *Prog, req *types.Named) *types.Var {
 	}
 	return found
 }
+
+// clientDispatchFn: the function that holds the type switch of the client frame handler on the
+// message type: Receive itself, or the private helper (called from nowhere else) that holds the
+// most typed arms.
+func clientDispatchFn(p *Prog) *ssa.Function {
+	cl := p.proxyClientType()
+	recv := p.methodOf(cl, "Receive")
+	if recv == nil {
+		fatalf("anchor: %s.Receive not found", cl.Obj().Name())
+	}
+	best, bestN := recv, 0
+	for _, f := range withCallees(p, recv, 3) {
+		if f != recv && !(f.Parent() == nil && recvNamed(f) == cl && onlyCalledFrom(p, f, recv, 3)) {
+			continue
+		}
+		seen := map[string]bool{}
+		eachInstr(f, func(in ssa.Instruction) {
+			ta, ok := in.(*ssa.TypeAssert)
+			if !ok || !ta.CommaOk {
+				return
+			}
+			if n := namedOf(ta.AssertedType); n != nil && n.Obj().Pkg() != nil {
+				path := n.Obj().Pkg().Path()
+				if strings.HasSuffix(path, "/message") || path == pkgPath("codecs") {
+					seen[n.Obj().Name()] = true
+				}
+			}
+		})
+		if len(seen) > bestN || (len(seen) == bestN && f == recv) {
+			best, bestN = f, len(seen)
+		}
+	}
+	return best
+}
